@@ -466,6 +466,18 @@ def run_all(ctx, tier, seed, env):
         elif ".write" in op and is_ok(a):
             written[cid] = (op, payload, unhex(a.split(" ")[1]))
     ctx["stats"]["traces"] += len(impl)
+    # the same round trips through files with 32-bit index arrays under a 64-bit size header (size_t n; vector<int> ptr, col): the
+    # result must be the one of the 64-bit file (which has just been compared with the model); seeded C19-8
+    l32 = [l.replace(" bin.rt.", " bin.rt32.", 1) for l in lines if l.split(" ", 2)[1].startswith("bin.rt.")]
+    impl32 = run_lines(ctx, "fileio", l32, env)
+    for l in l32:
+        cid, op, payload = l.split(" ", 2)
+        a, b = impl32.get(cid), impl.get(cid)
+        stat(ctx, op, 1, 1 if is_ok(a) else 0, op + payload)
+        ctx["stats"]["oracle_checks"] += 1
+        if a != b:
+            ctx["stats"]["oracle_fail"] += 1
+            fails.append(fail(l, a, b, "C19 binary round trip with 32-bit index arrays and a 64-bit size header = the 64-bit file's result (model-checked)", why="stage-a"))
 
     # files written by the implementation are read back by both readers (reader model on real files)
     rl = []
